@@ -325,7 +325,7 @@ macro_rules! stress_map {
             }
             if sh.done.load(Ordering::SeqCst) < threads as u64 {
                 sh.violation(format!(
-                    "C03/C13: {} of {threads} threads did not finish their current call within 10 s (each holds at most one guard at a time)",
+                    "C03/C08/C13: {} of {threads} threads did not finish their current call within 10 s (each holds at most one guard at a time)",
                     threads as u64 - sh.done.load(Ordering::SeqCst)
                 ));
                 let v = sh.violations.lock().unwrap_or_else(|e| e.into_inner()).clone();
@@ -347,7 +347,7 @@ macro_rules! stress_map {
                     .collect();
                 let wk: Vec<u32> = want.keys().copied().collect();
                 if ks != wk || n != wk.len() {
-                    sh.violation(format!("C04: all threads done, count {n} keys {ks:?}, but exactly {wk:?} have values"));
+                    sh.violation(format!("C04/C06: all threads done, count {n} keys {ks:?}, but exactly {wk:?} have values (every guard is dropped, every abandoned acquisition cleaned up)"));
                 }
                 match Arc::try_unwrap(map) {
                     Ok(m) => {
